@@ -11,12 +11,12 @@ CHECKS = {
         category="exploration",
         technique="runtime monitoring: metamorphic round-trip oracle over grammar-generated settings on an ASan+UBSan build",
         text="Held on every executed (phrase, setting) triple: re-hash with H and with two digest-noise variants of H equals H, "
-             "for all 16 methods and every accepted setting-form class the grammar produces; counts in the evidence.",
+             "for all 16 methods and every accepted setting-form class the grammar produces; counts in the evidence. The round trip is also made with the phrase left in data->input between the two calls.",
         note="Only cheap cost parameters are hashed; settings are sampled from a per-method grammar, not enumerated.",
         design="§4 C01"),
     "C02": dict(
         category="exploration",
-        technique="runtime monitoring: differential execution against the released libxcrypt 4.4.33 binary and independent reference models; AVX2 and portable-C builds of the yescrypt core against the SSE2 build",
+        technique="runtime monitoring: differential execution against the released libxcrypt 4.4.33 binary and independent reference models; AVX2 and portable-C builds of the yescrypt core against the SSE2 build; OpenMP build with 1, 2 and all threads; -DNDEBUG build of the whole library",
         text="Every successful tree result (at -O2 and under ASan) equals the released binary's and, where one exists, an "
              "independent model's result on the sampled (phrase, setting) space of all 16 methods.",
         note="Native yescrypt (flavours j, /) has no independent implementation offline - released binary only; costs above the budget are not hashed.",
@@ -25,12 +25,12 @@ CHECKS = {
         category="exploration",
         technique="runtime monitoring: metamorphic inequality oracle (phrase/salt perturbations) on an ASan+UBSan build",
         text="No perturbation of the phrase inside the documented significant window, and no change of the canonical salt/cost, "
-             "reproduced the digest on the executed bases; byte positions 0..510 enumerated in the thorough tier; yescrypt/scrypt cost grids at realistic sizes gave pairwise different digests.",
+             "reproduced the digest on the executed bases; byte positions 0..510 enumerated in the thorough tier; yescrypt/scrypt cost grids at realistic sizes gave pairwise different digests. Repeated on four other hash selections.",
         note="Structural collisions outside the perturbation family are not searched; DES-based/$2x$/$2a$ driven 7-bit.",
         design="§4 C03"),
     "C04": dict(
         category="exploration",
-        technique="compiler sanitizers (gcc ASan+UBSan fatal, clang MSan with uninitialised objects, valgrind memcheck, clang libFuzzer+ASan+UBSan coverage-guided stage) + canary/NUL/pointer monitors on exact-size argument blocks",
+        technique="compiler sanitizers (gcc ASan+UBSan fatal, clang MSan with uninitialised objects, valgrind memcheck, clang libFuzzer+ASan+UBSan coverage-guided stage) + canary/NUL/pointer monitors on exact-size argument blocks; ASan builds without explicit_bzero and without mmap, memcheck on the no-mmap build",
         text="No sanitizer report, canary damage, stray pointer, missing NUL or garbage-dependent result on the executed "
              "calls: all entry points x valid/field-mutated/random settings up to 40000 bytes x phrases up to 4096 x "
              "all 16 alignments x hostile integer arguments.",
@@ -41,12 +41,12 @@ CHECKS = {
         technique="runtime monitoring: fail-closed shape monitor + independent must-fail oracle over byte x position sweeps and call histories, on the default build, on one with the other failure-token option and on a -funsigned-char build",
         text="Every observed failure left NULL/the failure token, a documented errno and exactly the token in the output "
              "field; no request the must-fail oracle rejects produced a hash; thorough tier sweeps every byte value at "
-             "every position of one valid setting per method.",
+             "every position of one valid setting per method. Must-fail classes include empty and wrapped cost fields, bcrypt cost fields that are not two digits, forbidden characters inside multi-$ scrypt salts.",
         note="Requests outside the must-fail oracle may succeed or fail (then only the shape is judged); ENOMEM is C15's.",
         design="§4 C05"),
     "C06": dict(
         category="exploration",
-        technique="runtime monitoring: per-method result grammar + acceptance follow-ups (crypt_checksalt, crypt, crypt_gensalt prefix) on every success",
+        technique="runtime monitoring: per-method result grammar + acceptance follow-ups (crypt_checksalt, crypt, crypt_gensalt prefix) on every success; the same calls in a process that selected a single-byte locale, compared with the C-locale answers",
         text="Every successful result of the workload matched its method's structural grammar, character set, length and tag and "
              "was accepted as a setting and as a gensalt prefix of the same family; per-position digest alphabet coverage reported; the widest documented cost spellings (10^8..10^9 rounds) were hashed and kept their shape.",
         note="Shape violations needing a digest value not sampled are invisible (coverage table shows what was seen).",
@@ -189,7 +189,7 @@ def main():
             "guard": "LIBXCRYPT_VERIF",
             "enable": "every verification build compiles lib/*.c from /repo's working tree with -DLIBXCRYPT_VERIF "
                       "(vlib/build.py); no source hook is needed so far: all instrumentation is compiler sanitizers "
-                      "plus link-time interposition (-Wl,--wrap=malloc,realloc,free,mmap,munmap,arc4random_buf)",
+                      "plus link-time interposition (-Wl,--wrap= for malloc, calloc, posix_memalign, aligned_alloc, realloc, free, mmap, munmap, arc4random_buf, explicit_bzero, setlocale, strtok, l64a, localeconv, rand)",
             "baseline_off_cmd": "cd /repo && { [ -f Makefile ] || { { [ -x configure ] || ./autogen.sh; } && ./configure; }; } && make -j16 check",
             "source_commits": [],
             "add_only": True,
